@@ -1,7 +1,7 @@
 #!/venv/bin/python
 """usage: tools/probe.py <script file | -> [passes] : transpile, compile, run, compare with CPython (triage aid)."""
 import json, sys
-sys.path.insert(0, "/verif"); sys.path.insert(0, "/repo/src")
+sys.path.insert(0, "/verif"); sys.path.insert(0, __import__("os").environ.get("REDUINO_SRC") or "/repo/src")
 from rmc import device, hostrun, observe
 src = sys.stdin.read() if sys.argv[1] == "-" else open(sys.argv[1]).read()
 passes = int(sys.argv[2]) if len(sys.argv) > 2 else 2
